@@ -107,6 +107,12 @@ def dict_case(draw):
 def arith_case(draw):
     a = draw(items(1))
     b = draw(items(1))
+    if draw(st.integers(0, 3)) == 0:
+        # the same set of species on both sides, written in another order and with other counts (HCOOH + CH3OH)
+        els = draw(st.lists(st.sampled_from(COMMON), min_size=2, max_size=4, unique=True))
+        mk = lambda el, n: {"t": "s", "el": el, "A": None, "q": None, "qs": "", "n": n, "mul": False}
+        a = [[mk(el, draw(st.integers(1, 4))), ""] for el in els]
+        b = [[mk(el, draw(st.integers(1, 6))), ""] for el in draw(st.permutations(els))]
     return {"kind": "arith", "a": [[i, j] for i, j in a], "b": [[i, j] for i, j in b], "k": draw(st.sampled_from([1, 1, 2, 3, 5, 7])),
             "natural": draw(st.booleans())}
 
